@@ -23,6 +23,7 @@ import AbraModel.Drv.PreludeCmp
 import AbraModel.Drv.Render
 import AbraModel.Drv.HashMap
 import AbraModel.Drv.Assign
+import AbraModel.Drv.SpanTree
 /- Line-protocol model driver: one request per input line (`<component> <args…>`), one answer per line. -/
 open Abra.Drv
 
@@ -59,6 +60,7 @@ def dispatch (line : String) : String :=
   | "render" :: rest => handleRender rest
   | "hmap" :: rest => handleHMap rest
   | "assign" :: rest => handleAssign rest
+  | "spantree" :: rest => handleSpanTree rest
   | _ => "bad-op"
 
 partial def loop (h : IO.FS.Stream) (out : IO.FS.Stream) : IO Unit := do
